@@ -237,22 +237,76 @@ def _unit(item: tuple) -> Partial:
     return p
 
 
+# ---------------------------------------------------------------------------
+# submissions from separately started client processes (SQLite): whatever the lookup derives from a value must not
+# depend on per-process state such as the string hash salt
+# ---------------------------------------------------------------------------
+_CHILD = r"""
+import json, sys
+sys.path.insert(0, sys.argv[1])
+from vf import env, tasks
+from pynenc.conf.config_task import ConcurrencyControlType as CC
+mode, db = sys.argv[2], sys.argv[3]
+app = env.make_app(env.SQLITE, app_id="c07x", db=db)
+opts = dict(registration_concurrency=CC[mode])
+if mode == "KEYS":
+    opts["key_arguments"] = ("a",)
+t = tasks.bind(app, tasks.keyed, **opts)
+out = [str(t(1, 2).invocation_id), str(t(a=1, b=2).invocation_id), str(t(3, 2).invocation_id)]
+print("IDS " + json.dumps(out))
+"""
+
+
+def _xproc_unit(mode: str) -> Partial:
+    import json
+    import os
+    import subprocess
+    import sys
+
+    p = Partial()
+    db = env.fresh_db(f"c07x{mode}")
+    root = os.path.dirname(os.path.dirname(os.path.dirname(os.path.abspath(__file__))))
+    seen: list[list[str]] = []
+    for seed in ("1", "2", "3"):
+        envv = dict(os.environ, PYTHONHASHSEED=seed)
+        r = subprocess.run([sys.executable, "-c", _CHILD, root, mode, db], env=envv, capture_output=True, text=True, timeout=120)
+        line = next((ln for ln in r.stdout.splitlines() if ln.startswith("IDS ")), None)
+        if line is None:
+            raise RuntimeError(f"client process failed: {r.stderr[-400:]}")
+        seen.append(json.loads(line[4:]))
+        p.count("client_processes")
+        p.count("transitions", 3)
+    first = seen[0]
+    cfg = {"mode": mode, "clients": "separately started processes, PYTHONHASHSEED 1, 2, 3"}
+    if first[0] != first[1] or first[0] == first[2]:
+        p.violation({"clause": "xproc:one-client-duplicates-not-collapsed", "mode": mode}, {**cfg, "ids": seen}, {"kind": "xproc", "mode": mode})
+    elif any(ids != first for ids in seen[1:]):
+        p.violation({"clause": "xproc:duplicate-from-another-process-not-collapsed", "mode": mode}, {**cfg, "ids": seen},
+                    {"kind": "xproc", "mode": mode})
+    return p
+
+
 def run(ctx: Ctx) -> None:
     depth = 7 if ctx.thorough else 5
     items = [(i, depth, f) for i in range(len(CONFIGS)) for f in [None, *ALPHABET]]
     rot = ctx.seed % len(items)
     for part in par.pmap(_unit, items[rot:] + items[:rot]):
         ctx.merge(part)
+    for part in par.pmap(_xproc_unit, ["ARGUMENTS", "KEYS"]):
+        ctx.merge(part)
     ctx.rule = (f"per configuration (mode x key arguments x raise option, {len(CONFIGS)} of them): BFS to depth {depth} over "
                 "5 submissions (argument values with repeats, positional and keyword spelling), claim, finish on the "
                 "in-memory and SQLite stacks against a reference dict; returned identity (new/reused/raised), counts, queue "
-                "length, statuses and history lengths compared after every step; invariant <= 1 REGISTERED per key")
+                "length, statuses and history lengths compared after every step; invariant <= 1 REGISTERED per key; plus (SQLite) the same three "
+                "submissions from three separately started client processes with string hash salts 1, 2, 3: every process gets the ids the first one got")
     ctx.assume("the raise option is only combined with KEYS (the statement does not define it for TASK / ARGUMENTS)")
     ctx.assume("submissions are sequential (the statement speaks of sequential submissions); concurrency is C06/C02 territory")
 
 
 def replay(payload: dict) -> bool:
     r = payload["replay"]
+    if r.get("kind") == "xproc":
+        return bool(_xproc_unit(r["mode"]).violations)
     tag = r["config"]
     cfg = next(c for c in CONFIGS if _tag(c) == tag)
     impls = [Impl(env.MEM, cfg), Impl(env.SQLITE, cfg)]
